@@ -214,6 +214,11 @@ func session(t run.TB, c Case) (rendered int) {
 	for _, e := range c.Enums {
 		x.sources[e[0]] = e[1]
 	}
+	if hugeExponent.MatchString(c.Schema + strings.Join(c.Docs, " ")) {
+		// only cases that can blow up memory pay for the write-ahead file
+		run.WriteAhead(chk, c.enc())
+		defer run.ClearAhead()
+	}
 	done := make(chan struct{})
 	go func() {
 		defer close(done)
@@ -366,6 +371,8 @@ func grammarMutate(t *rapid.T, s string, label string) string {
 	return s[:pos] + r[1] + s[pos+len(r[0]):]
 }
 
+var hugeExponent = regexp.MustCompile(`[eE][+-]?[0-9]{6,}`)
+
 var tokenRe = regexp.MustCompile(`"(?:[^"\\\n]|\\.)*"|-?[0-9][0-9.]*|@[A-Za-z0-9_]+|true|false|null`)
 
 // tokenMutate replaces, empties, duplicates or deletes one lexical token (string, number, type
@@ -382,7 +389,7 @@ func tokenMutate(t *rapid.T, s string, label string) string {
 	}
 	a, b := locs[i][0], locs[i][1]
 	tok := s[a:b]
-	repl := rapid.SampledFrom([]string{`""`, "0", "-", "@", "{}", "[]", "null", tok + tok, "", `"@"`, `"`, tok + " " + tok, "1e", `"\u12"`, "@t0 |", "01"}).Draw(t, label+"Repl")
+	repl := rapid.SampledFrom([]string{`""`, "0", "-", "@", "{}", "[]", "null", tok + tok, "", `"@"`, `"`, tok + " " + tok, "1e", `"\u12"`, "@t0 |", "01", "1e9999999999", "-2.5E-9999999999", "1e+123456789"}).Draw(t, label+"Repl")
 	return s[:a] + repl + s[b:]
 }
 
